@@ -120,12 +120,26 @@ func TestNumctModulus(t *testing.T) {
 			wantNat(t, what, out, mod(new(big.Int).Neg(x.v)), mBig.BitLen())
 		case "ModInv":
 			out := outFor(t, mode, xn, nil)
+			oldV, oldAnn := out.Big(), out.AnnouncedLen()
 			ok := m.ModInv(out, xn)
 			g := new(big.Int).GCD(nil, nil, mod(x.v), mBig)
-			if mBig.Cmp(b1) == 0 {
+			if mBig.Bit(0) == 0 && eq(g, b1) && setBigDirty(oldV, oldAnn, new(big.Int).ModInverse(x.v, mBig), mBig.BitLen()) {
+				vlib.Excluded(fStaleEven)
+				extra = "even-modulus-dirty-output(excluded)"
+				nt = false
+			} else if mBig.Cmp(b1) == 0 {
 				// zero ring: verdict recorded, not asserted
 				extra = fmt.Sprintf("zero-ring ok=%v(recorded)", ctb(ok))
 				nt = false
+			} else if mode == "out=x" && mBig.Bit(0) == 1 {
+				// odd moduli verify out*x = 1 AFTER out (= x) has been overwritten: the verdict is
+				// wrong under this aliasing (finding: receiver written before operands are read);
+				// the inverse itself is still asserted
+				vlib.Excluded(fDivVarAlias)
+				if eq(g, b1) {
+					wantNat(t, what, out, new(big.Int).ModInverse(x.v, mBig), -1)
+				}
+				extra = "out=x-odd-modulus(verdict excluded)"
 			} else {
 				if ctb(ok) != eq(g, b1) {
 					t.Fatalf("%s: ok=%v but gcd(x,m)=%s", what, ctb(ok), sh(g))
@@ -171,8 +185,16 @@ func TestNumctModulus(t *testing.T) {
 				if mode == "out=y" {
 					out = en
 				}
+				oldV, oldAnn := out.Big(), out.AnnouncedLen()
 				m.ModExp(out, xn, en)
-				wantNat(t, what+" e="+e.String(), out, new(big.Int).Exp(x.v, e.v, mBig), -1)
+				want := new(big.Int).Exp(x.v, e.v, mBig)
+				if mBig.Bit(0) == 0 && setBigDirty(oldV, oldAnn, want, mBig.BitLen()) {
+					vlib.Excluded(fStaleEven)
+					extra = "even-modulus-dirty-output(excluded)"
+					nt = false
+				} else {
+					wantNat(t, what+" e="+e.String(), out, want, -1)
+				}
 				if out != en {
 					unchanged(t, what+" [e]", en, e, 0, false)
 				}
@@ -183,6 +205,14 @@ func TestNumctModulus(t *testing.T) {
 					ev.Neg(ev)
 				}
 				g := new(big.Int).GCD(nil, nil, mod(x.v), mBig)
+				oldV, oldAnn := out.Big(), out.AnnouncedLen()
+				if neg && !eq(g, b1) && mBig.Bit(0) == 0 {
+					// no value exists (negative power of a non-unit); for even moduli the call
+					// dereferences the nil result of math/big - outside the domain, not executed
+					extra = "negative-exponent-of-nonunit-even(not executed)"
+					nt = false
+					break
+				}
 				m.ModExpI(out, xn, numct.NewIntFromBig(ev, e.ann))
 				if neg && (!eq(g, b1) || mBig.Cmp(b1) == 0) {
 					extra = "negative-exponent-of-nonunit(recorded)"
@@ -192,11 +222,17 @@ func TestNumctModulus(t *testing.T) {
 					if neg {
 						want.ModInverse(want, mBig)
 					}
-					wantNat(t, what+fmt.Sprintf(" e=%s neg=%v", e, neg), out, want, -1)
-					extra = fmt.Sprintf("eneg=%v", neg)
+					if mBig.Bit(0) == 0 && setBigDirty(oldV, oldAnn, want, mBig.BitLen()) {
+						vlib.Excluded(fStaleEven)
+						extra = "even-modulus-dirty-output(excluded)"
+						nt = false
+					} else {
+						wantNat(t, what+fmt.Sprintf(" e=%s neg=%v", e, neg), out, want, -1)
+						extra = fmt.Sprintf("eneg=%v", neg)
+					}
 				}
 			}
-			y, yRel = x, xRel
+			yRel = "exp"
 		case "ModMultiBaseExp":
 			k := rapid.IntRange(0, 4).Draw(t, "k")
 			e := genNatOp(t, "e", min(mBig.BitLen()+10, 600), true)
@@ -314,15 +350,20 @@ func TestNumctModulus(t *testing.T) {
 // returned exactly when the Euler criterion is 1 (x = 0 mod p: returned => squares back only).
 func TestModSqrt(t *testing.T) {
 	const test = "ModSqrt"
-	vlib.Check(t, 5000, func(t *rapid.T) {
-		maxM := 1100
+	vlib.Check(t, 2400, func(t *rapid.T) {
+		maxM, maxP := 600, 260
+		fix := []int{512}
 		if vlib.Thorough() {
-			maxM = 2100
+			maxM, maxP, fix = 2100, 520, []int{512, 768, 1024}
 		}
 		var mBig *big.Int
 		var mClass string
 		if rapid.IntRange(0, 9).Draw(t, "primebias") < 6 {
-			p, c := genOddPrime(t, "p", 520, []int{512, 768, 1024}, []string{"ord", "blum", "safe"})
+			var fb []int
+			if rapid.IntRange(0, 7).Draw(t, "usefixture") == 0 {
+				fb = fix
+			}
+			p, c := genOddPrime(t, "p", maxP, fb, []string{"ord", "blum", "safe"})
 			mBig, mClass = p, "m=oddprime/"+c
 			if p.Bit(1) == 1 {
 				mClass += "/3mod4"
@@ -408,8 +449,10 @@ func TestModulusReuse(t *testing.T) {
 		}
 		var regs [nReg]*numct.Nat
 		var model [nReg]*big.Int
-		var stale [nReg]int // index+1 of the even modulus whose ModInv/ModExp wrote the register with a cached reduction of another modulus; 0 = clean
-		var reducedBy [nReg]int
+		// marker[r] = 1 + index of the modulus whose "already reduced" marker the register's Nat
+		// carries (0: none); trusted[r] = the value really is below that modulus.
+		var marker [nReg]int
+		var trusted [nReg]bool
 		for i := range regs {
 			o := genNatOp(t, fmt.Sprint("r", i), 400, false)
 			regs[i], model[i] = o.nat(), o.v
@@ -427,18 +470,18 @@ func TestModulusReuse(t *testing.T) {
 			modOp := op[0] == 'M' && op != "Mul"
 			if modOp {
 				for _, r := range []int{a, b} {
-					if stale[r] != 0 && reducedBy[r] != mi+1 {
-						// exactly finding C17-stale-reduced-after-even-modulus-write: drop the cached marker
+					if marker[r] == mi+1 && !trusted[r] {
+						// exactly finding C17-stale-reduced-after-even-modulus-write: the register was
+						// written by an even modulus' ModInv/ModExp while carrying this modulus' marker
 						vlib.Excluded(fStaleEven)
 						regs[r] = numct.NewNatFromBig(model[r], regs[r].AnnouncedLen())
-						stale[r], reducedBy[r] = 0, 0
+						marker[r] = 0
 					}
 				}
 			}
 			var want *big.Int
 			okWant, okGot, hasOK := true, ct.True, false
 			even := mm.Bit(0) == 0
-			prevReduced := reducedBy[d]
 			switch op {
 			case "Mod":
 				m.Mod(regs[d], regs[a])
@@ -457,16 +500,34 @@ func TestModulusReuse(t *testing.T) {
 				want = new(big.Int).Mod(new(big.Int).Neg(model[a]), mm)
 			case "ModInv":
 				hasOK = mm.Cmp(b1) > 0
-				okGot = m.ModInv(regs[d], regs[a])
 				g := new(big.Int).GCD(nil, nil, new(big.Int).Mod(model[a], mm), mm)
 				okWant = eq(g, b1)
 				if okWant {
 					want = new(big.Int).ModInverse(model[a], mm)
 				}
+				src := regs[a]
+				if even && okWant && setBigDirty(model[d], regs[d].AnnouncedLen(), want, mm.BitLen()) {
+					vlib.Excluded(fStaleEven)
+					src = regs[a].Clone()
+					regs[d] = new(numct.Nat)
+					marker[d] = 0
+				}
+				if !even && d == a {
+					vlib.Excluded(fDivVarAlias) // odd modulus, out = x: verdict computed from the overwritten operand
+					src = regs[a].Clone()
+				}
+				okGot = m.ModInv(regs[d], src)
 			case "ModExp":
 				e := new(big.Int).And(model[b], bi(0xffff))
-				m.ModExp(regs[d], regs[a], exactNat(e))
 				want = new(big.Int).Exp(model[a], e, mm)
+				src := regs[a]
+				if even && setBigDirty(model[d], regs[d].AnnouncedLen(), want, mm.BitLen()) {
+					vlib.Excluded(fStaleEven)
+					src = regs[a].Clone()
+					regs[d] = new(numct.Nat)
+					marker[d] = 0
+				}
+				m.ModExp(regs[d], src, exactNat(e))
 			case "ModDiv":
 				hasOK = false
 				okGot = m.ModDiv(regs[d], regs[a], regs[b])
@@ -494,7 +555,7 @@ func TestModulusReuse(t *testing.T) {
 				regs[d].Rsh(regs[a], sh)
 				want = new(big.Int).Rsh(model[a], sh)
 			}
-			what := fmt.Sprintf("moduli %s/%s/%s; sequence%s", sh(mb[0]), sh(mb[1]), sh(mb[2]), trace)
+			what := fmt.Sprintf("moduli %s/%s/%s; sequence%s (operands before the last step: r%d=%s r%d=%s)", sh(mb[0]), sh(mb[1]), sh(mb[2]), trace, a, sh(model[a]), b, sh(model[b]))
 			if hasOK && ctb(okGot) != okWant {
 				t.Fatalf("%s: ok=%v want %v", what, ctb(okGot), okWant)
 			}
@@ -508,24 +569,37 @@ func TestModulusReuse(t *testing.T) {
 				// non-unit division): re-synchronise the model from the register
 				model[d] = regs[d].Big()
 			}
-			// bookkeeping for the exclusion: which modulus' reduction marker the register may carry
-			switch {
-			case (op == "ModInv" || op == "ModExp") && even:
-				if op == "ModInv" && !ctb(okGot) {
-					// not written
-				} else if prevReduced != 0 && prevReduced != mi+1 && d != a {
-					stale[d] = mi + 1
-				} else if d == a && reducedBy[a] != 0 && reducedBy[a] != mi+1 {
-					stale[d] = mi + 1
+			// bookkeeping of the reduction marker, following saferith
+			recreate := func() {
+				regs[d] = numct.NewNatFromBig(model[d], regs[d].AnnouncedLen())
+				marker[d] = 0
+			}
+			switch op {
+			case "Mod", "ModAdd", "ModSub", "ModMul", "ModNeg":
+				marker[d], trusted[d] = mi+1, true
+			case "ModInv", "ModExp":
+				switch {
+				case op == "ModInv" && !ctb(okGot):
+					recreate() // refused: content not defined
+				case even: // written with SetBig: the old marker of the Nat object survives
+					trusted[d] = marker[d] == mi+1
+				default:
+					marker[d], trusted[d] = mi+1, true
 				}
-			case modOp:
-				stale[d], reducedBy[d] = 0, mi+1
-			case op == "Set":
-				stale[d], reducedBy[d] = stale[a], reducedBy[a]
-			case op == "Resize":
-				stale[d], reducedBy[d] = stale[a], reducedBy[a]
+			case "ModDiv":
+				recreate()
+			case "Set", "Resize":
+				marker[d], trusted[d] = marker[a], trusted[a]
+				if marker[d] != 0 && limbsOf(regs[d].AnnouncedLen()) != limbsOf(mb[marker[d]-1].BitLen()) {
+					// a Nat resized to another limb count than the modulus it is marked "reduced by" is
+					// used as is by that modulus (ModAdd/ModSub: out-of-range limb access; ModInv: panic
+					// "invert: mismatched arguments"): another entry point of the stale-marker finding;
+					// the marker is dropped here
+					vlib.Excluded(fStaleReduced)
+					recreate()
+				}
 			default:
-				stale[d], reducedBy[d] = 0, 0
+				marker[d] = 0
 			}
 		}
 		vlib.Case(test, vlib.Desc("reuse", mcs[0], mcs[1], mcs[2], steps), steps >= 3, "steps="+fmt.Sprint(steps), "m0="+mcs[0])
